@@ -1,5 +1,6 @@
 import PedVerif.Lemmas.CallLayer4
 import PedVerif.Lemmas.CheckerEnvs
+import PedVerif.Props.GenWrap
 /-!
 # C04 — @pedantic is transparent for conforming keyword calls
 
